@@ -106,6 +106,16 @@ theorem pairEnv_pass (k : Nat) (fa fb : List (Val α)) (rest : Env α) (x : Var)
   rw [List.append_assoc, lookup_ctorBinds_miss .other false k fb _ x (by intro j; simpa [fieldVar] using h2 j)]
   simp
 
+/-- Environment of a two-operand method. -/
+def env2 (a b : Val α) : Env α :=
+  [(.self_, a), (.f, .opaque), (.state, .opaque), (Var.other, b)]
+
+@[simp] theorem env2_self (a b : Val α) : (env2 a b).lookup .self_ = some a := rfl
+@[simp] theorem env2_other (a b : Val α) : (env2 a b).lookup .other = some b := rfl
+
+theorem runMethod_two (cx : SemCtx α) (body : Expr) (a b : Val α) :
+    runMethod cx body a (some b) = (eval cx (env2 a b) [] body).finish := rfl
+
 /-- Arm selection: among arms generated per variant, where the arms of variant
 `k'` can only match values of variant `k'`, evaluation on a value of variant
 `k` runs variant `k`'s arms followed by the tail. -/
